@@ -22,6 +22,7 @@
 #include <etl/cwchar.hpp>
 #include <etl/expected.hpp>
 #include <etl/inplace_vector.hpp>
+#include <etl/linalg.hpp>
 #include <etl/mdspan.hpp>
 #include <etl/numeric.hpp>
 #include <etl/optional.hpp>
@@ -344,6 +345,15 @@ static std::string iv_ops(Line const& l)
     return both(impl, oracle);
 }
 
+// calls f(integral_constant<size_t, I>) for the I < Max that equals v
+template <std::size_t Max, typename F>
+static bool with_const(std::size_t v, F&& f)
+{
+    return [&]<std::size_t... I>(std::index_sequence<I...>) {
+        return ((v == I ? (f(std::integral_constant<std::size_t, I>{}), true) : false) || ...);
+    }(std::make_index_sequence<Max>{});
+}
+
 // ---------------------------------------------------------------- string_view / span / array
 static std::string view_ops(Line const& l)
 {
@@ -386,6 +396,45 @@ static std::string view_ops(Line const& l)
         impl = done([&] { return units(sp.subspan(a, b)); });
         bool dyn = b == static_cast<std::size_t>(-1);
         oracle   = (a <= n && (dyn || b <= n - a)) ? okstr(subv(a, dyn ? n - a : b), e) : ASSERT;
+    } else if (op == "sp.first_t" || op == "sp.last_t") { // first<a>() / last<a>() on a span of dynamic extent, a < 7
+        bool fst = op == "sp.first_t";
+        impl = done([&] {
+            Vec o;
+            bool hit = with_const<7>(a, [&](auto c) { o = fst ? units(sp.template first<decltype(c)::value>()) : units(sp.template last<decltype(c)::value>()); });
+            if (!hit) std::exit(3);
+            return o;
+        });
+        oracle = a <= n ? okstr(fst ? subv(0, a) : subv(n - a, a), e) : ASSERT;
+    } else if (op == "sp.subspan_t") { // subspan<a, b>() with a < 6, b < 5 or npos (dynamic_extent)
+        bool dyn = b == static_cast<std::size_t>(-1);
+        impl = done([&] {
+            Vec o;
+            bool hit = with_const<6>(a, [&](auto ca) {
+                constexpr std::size_t A = decltype(ca)::value;
+                if (dyn) o = units(sp.template subspan<A>());
+                else with_const<5>(b, [&](auto cb) { o = units(sp.template subspan<A, decltype(cb)::value>()); });
+            });
+            if (!hit) std::exit(3);
+            return o;
+        });
+        oracle = (a <= n && (dyn || b <= n - a)) ? okstr(subv(a, dyn ? n - a : b), e) : ASSERT;
+    } else if (op == "sp.ctor_ext") { // span<char, ext> from (pointer, count) k=0 / a sized range k=1 / a span of dynamic extent k=2
+        std::size_t ext = SZ(l, "ext");
+        int k = static_cast<int>(l.i("k", 0));
+        etl::static_vector<char, 8> vec;
+        for (auto x : e) vec.push_back(static_cast<char>(x));
+        impl = done([&] {
+            Vec o;
+            bool hit = with_const<7>(ext, [&](auto c) {
+                constexpr std::size_t N = decltype(c)::value;
+                if (k == 0) { etl::span<char, N> t(hb.p, n); for (std::size_t i = 0; i < n && i < N; ++i) o.push_back(static_cast<unsigned char>(t.data()[i])); }
+                else if (k == 1) { etl::span<char const, N> t(vec); for (std::size_t i = 0; i < n && i < N; ++i) o.push_back(static_cast<unsigned char>(t.data()[i])); }
+                else { etl::span<char> const csp = sp; etl::span<char, N> t(csp); for (std::size_t i = 0; i < n && i < N; ++i) o.push_back(static_cast<unsigned char>(t.data()[i])); }
+            });
+            if (!hit) std::exit(3);
+            return o;
+        });
+        oracle = n == ext ? okstr(e, e) : ASSERT;
     } else return "bad-op\tbad-op";
     return both(impl, oracle);
 }
@@ -393,15 +442,31 @@ static std::string view_ops(Line const& l)
 template <std::size_t N>
 static std::string ar_ops(Line const& l)
 {
-    Vec const e = LST(l, "e");
-    auto* arr   = new etl::array<int, N>();
-    for (std::size_t i = 0; i < N && i < e.size(); ++i) (*arr)[i] = static_cast<int>(e[i]);
+    Vec const e    = LST(l, "e");
+    auto const& op = l.op;
+    auto* arr      = new etl::array<int, N>();
+    if constexpr (N != 0) {
+        for (std::size_t i = 0; i < N && i < e.size(); ++i) (*arr)[i] = static_cast<int>(e[i]);
+    }
     etl::array<int, N> const* ca = arr;
-    auto snap = [arr] { Vec o; for (auto x : *arr) o.push_back(x); return fmt(o); };
-    std::size_t i = SZ(l, "i");
-    int k = static_cast<int>(l.i("k", 0));
-    std::string impl = in_child(snap, [&] { Vec r{k ? (*ca)[i] : (*arr)[i]}; Vec o; for (auto x : *arr) o.push_back(x); return okstr(r, o); });
-    std::string oracle = i < N ? okstr({e[i]}, e) : ASSERT;
+    auto all  = [arr] { Vec o; for (auto x : *arr) o.push_back(x); return o; };
+    auto snap = [all] { return fmt(all()); };
+    int k     = static_cast<int>(l.i("k", 0));
+    std::string impl, oracle;
+    if (op == "ar.at") {
+        std::size_t i = SZ(l, "i");
+        impl   = in_child(snap, [&] { Vec r{k ? (*ca)[i] : (*arr)[i]}; return okstr(r, all()); });
+        oracle = i < N ? okstr({e[i]}, e) : ASSERT;
+    } else if (op == "ar.front") {
+        impl   = in_child(snap, [&] { Vec r{k ? ca->front() : arr->front()}; return okstr(r, all()); });
+        oracle = N != 0 ? okstr({e.front()}, e) : ASSERT;
+    } else if (op == "ar.back") {
+        impl   = in_child(snap, [&] { Vec r{k ? ca->back() : arr->back()}; return okstr(r, all()); });
+        oracle = N != 0 ? okstr({e.back()}, e) : ASSERT;
+    } else {
+        delete arr;
+        return "bad-op\tbad-op";
+    }
     delete arr;
     return both(impl, oracle);
 }
@@ -476,6 +541,35 @@ static std::string str_ops(Line const& l)
         if (a <= n && b <= n - a) {
             ref.erase(ref.begin() + static_cast<LL>(a), ref.begin() + static_cast<LL>(a + b));
             oracle = okstr({static_cast<LL>(a)}, ref);
+        } else oracle = ASSERT;
+    } else if (op == "str.insert") { // a = index, xs = the inserted units (they fit), k = overload 1..6
+        impl = done([&] {
+            std::size_t m = xs.size();
+            etl::string_view vw(src.p, m);
+            if (k == 1) s->insert(a, z.data());
+            else if (k == 2) s->insert(a, src.p, m);
+            else if (k == 3) { S other(src.p, std::min<std::size_t>(m, Cap)); s->insert(a, other); }
+            else if (k == 4) { S other(src.p, std::min<std::size_t>(m, Cap)); s->insert(a, other, 0, m); }
+            else if (k == 5) s->insert(a, vw);
+            else s->insert(a, vw, 0, m);
+            return Vec{};
+        });
+        if (a <= n) {
+            ref.insert(ref.begin() + static_cast<LL>(a), xs.begin(), xs.end());
+            oracle = okstr({}, ref);
+        } else oracle = ASSERT;
+    } else if (op == "str.insert_fill") { // a = index, b = count (fits), v = the character
+        impl = done([&] { s->insert(a, b, ch); return Vec{}; });
+        if (a <= n) {
+            ref.insert(ref.begin() + static_cast<LL>(a), b, static_cast<unsigned char>(ch));
+            oracle = okstr({}, ref);
+        } else oracle = ASSERT;
+    } else if (op == "str.erase_idx") { // a = index, b = count (npos = to the end)
+        impl = done([&] { s->erase(a, b); return Vec{}; });
+        if (a <= n) {
+            std::size_t m = std::min(b, n - a);
+            ref.erase(ref.begin() + static_cast<LL>(a), ref.begin() + static_cast<LL>(a + m));
+            oracle = okstr({}, ref);
         } else oracle = ASSERT;
     } else if (op == "str.replace") { // a = pos, b = count, xs = replacement; k = overload
         impl = done([&] {
@@ -700,15 +794,17 @@ static std::string sc_ops(Line const& l)
         oracle = pos < static_cast<std::size_t>(w) ? okstr({}, {}) : ASSERT;
     } else if (op == "div_sat") {
         LL x = l.i("x"), y = l.i("y");
-        impl = in_child(nullptr, [&] { static volatile int sink; sink = etl::div_sat(static_cast<int>(x), static_cast<int>(y)); return okstr({}, {}); });
-        oracle = y != 0 ? okstr({}, {}) : ASSERT;
+        impl = in_child(nullptr, [&] { int q = etl::div_sat(static_cast<int>(x), static_cast<int>(y)); return okstr({static_cast<LL>(q)}, {}); });
+        // [numeric.sat]: y != 0; the truncated mathematical quotient, saturated to int (computed in 64 bits)
+        oracle = y != 0 ? okstr({std::max<LL>(-2147483648LL, std::min<LL>(2147483647LL, x / y))}, {}) : ASSERT;
     } else if (op == "day" || op == "month") {
         unsigned d = static_cast<unsigned>(l.i("d"));
         impl = in_child(nullptr, [&] {
             unsigned got = op == "day" ? static_cast<unsigned>(etl::chrono::day(d)) : static_cast<unsigned>(etl::chrono::month(d));
             return okstr({}, {static_cast<LL>(got)});
         });
-        oracle = d < 255 ? okstr({}, {static_cast<LL>(d)}) : ASSERT;
+        // day.hpp / month.hpp document "may hold any number in [0, 255]" ([time.cal.day]: no precondition, unspecified beyond)
+        oracle = d <= 255 ? okstr({}, {static_cast<LL>(d)}) : ASSERT;
     } else if (op == "stride") {
         std::string lay = l.str("l");
         std::size_t r   = SZ(l, "r");
@@ -717,6 +813,11 @@ static std::string sc_ops(Line const& l)
         impl = in_child(nullptr, [&] {
             LL s = 0;
             if (lay == "layout_left") { etl::layout_left::mapping<Ext> m{}; s = static_cast<LL>(m.stride(r)); }
+            else if (lay == "layout_stride") {
+                etl::array<std::size_t, 3> st{static_cast<std::size_t>(e[0]), static_cast<std::size_t>(e[1]), static_cast<std::size_t>(e[2])};
+                etl::layout_stride::mapping<Ext> m{Ext{}, st};
+                s = static_cast<LL>(m.stride(r));
+            }
             else { etl::layout_right::mapping<Ext> m{}; s = static_cast<LL>(m.stride(r)); }
             return okstr({s}, e);
         });
@@ -743,6 +844,42 @@ static std::string sc_ops(Line const& l)
         });
         bool one = fn == "strchr0" || fn == "strchr1";
         oracle = ((one || d) && s) ? okstr({}, {}) : ASSERT;
+    } else if (op == "linalg") {
+        // fn = add|copy|swap|mvp ; 1-D objects of nx / ny / nz elements; mvp: a is r x c, x has nx, y has ny elements
+        std::string fn = l.str("fn");
+        std::size_t nx = SZ(l, "nx"), ny = SZ(l, "ny"), nz = l.has("nz") ? SZ(l, "nz") : 0;
+        std::size_t r = l.has("r") ? SZ(l, "r") : 0, c = l.has("c") ? SZ(l, "c") : 0;
+        using V1 = etl::mdspan<int, etl::dextents<std::size_t, 1>>;
+        using M2 = etl::mdspan<int, etl::dextents<std::size_t, 2>>;
+        proto::heap_buf<int> bx(nx), by(ny), bz(nz), ba(r * c);
+        for (std::size_t i = 0; i < nx; ++i) bx.p[i] = static_cast<int>(i + 1);
+        for (std::size_t i = 0; i < ny; ++i) by.p[i] = static_cast<int>(2 * i + 1);
+        for (std::size_t i = 0; i < nz; ++i) bz.p[i] = 0;
+        for (std::size_t i = 0; i < r * c; ++i) ba.p[i] = static_cast<int>(i);
+        impl = in_child(nullptr, [&] {
+            V1 x(bx.p, nx), y(by.p, ny), zz(bz.p, nz);
+            if (fn == "add") etl::linalg::add(x, y, zz);
+            else if (fn == "copy") etl::linalg::copy(x, y);
+            else if (fn == "swap") etl::linalg::swap_elements(x, y);
+            else { M2 a(ba.p, r, c); etl::linalg::matrix_vector_product(a, x, y); }
+            return okstr({}, {});
+        });
+        bool ok = fn == "add" ? (nx == ny && nx == nz) : fn == "mvp" ? (c == nx && r == ny) : nx == ny;
+        oracle  = ok ? okstr({}, {}) : ASSERT;
+    } else if (op == "to_string") {
+        // to_string<cap>(x): the decimal text and its terminator must fit into cap characters
+        LL x = l.i("x");
+        std::size_t cap = SZ(l, "cap");
+        impl = in_child(nullptr, [&] {
+            std::size_t len = 0;
+            if (cap == 2) len = etl::to_string<2>(static_cast<long long>(x)).size();
+            else if (cap == 4) len = etl::to_string<4>(static_cast<long long>(x)).size();
+            else len = etl::to_string<21>(static_cast<long long>(x)).size();
+            static volatile std::size_t sink;
+            sink = len;
+            return okstr({}, {});
+        });
+        oracle = std::to_string(x).size() + 1 <= cap ? okstr({}, {}) : ASSERT;
     } else if (op == "set.ctor") {
         Vec xs   = LST(l, "xs");
         bool ord = l.i("ord", 1) != 0;
@@ -769,11 +906,13 @@ static std::string step(Line const& l)
         if (cap == 1) return sv_ops<int, 1>(l);
         if (cap == 3) return sv_ops<int, 3>(l);
         if (cap == 4) return sv_ops<int, 4>(l);
+        if (cap == 255) return sv_ops<int, 255>(l); // the size field narrows to uint8_t up to 255 ...
+        if (cap == 256) return sv_ops<int, 256>(l); // ... and to uint16_t from 256 (smallest_size_t)
         return "bad-op\tbad-op";
     }
     if (pre == "iv") return cap == 1 ? iv_ops<1>(l) : cap == 3 ? iv_ops<3>(l) : cap == 4 ? iv_ops<4>(l) : "bad-op\tbad-op";
     if (pre == "vw" || pre == "sp") return view_ops(l);
-    if (pre == "ar") return cap == 1 ? ar_ops<1>(l) : cap == 3 ? ar_ops<3>(l) : "bad-op\tbad-op";
+    if (pre == "ar") return cap == 0 ? ar_ops<0>(l) : cap == 1 ? ar_ops<1>(l) : cap == 3 ? ar_ops<3>(l) : "bad-op\tbad-op";
     if (pre == "str") return cap == 4 ? str_ops<4>(l) : cap == 20 ? str_ops<20>(l) : "bad-op\tbad-op";
     if (pre == "opt" || pre == "exp" || pre == "var") return oev_ops(l);
     if (op == "bs.ctor") return bs_ctor(l);
